@@ -6,7 +6,7 @@ props = [json.loads(l) for l in open(os.path.join(V, "properties.jsonl"))]
 
 MC = "model_checking"
 CHECKS = {
- "C01": (MC, "TLC enumerates every line up to the per-definition bound over a generated family of conventional definitions (CmdLine.tla: acceptor with denotation; invariants TypeOK, Functional, AllDelivered, ExactlyOnce); every reachable state is replayed into the real parser and class+value compared; a seeded driver runs longer lines on larger definitions and TLC validates the recorded outcomes against the same specification.",
+ "C01": (MC, "TLC enumerates every line up to the per-definition bound over a generated family of conventional definitions (CmdLine.tla: acceptor with denotation; invariants TypeOK, Functional, AllDelivered, ExactlyOnce); every reachable state is replayed into the real parser and class+value compared; a seeded driver runs longer lines on larger definitions and TLC validates the recorded outcomes against the same specification; Sentence.tla (a declarative grammar) is checked equivalent to the acceptor on the same family.",
          "TLA+ acceptor (CmdLine.tla) model-checked with TLC; spec->impl replay of all states; impl->spec trace validation", "6 (C01)"),
  "C10": (MC, "Same specification with the help and version items in the alphabet at every position (HelpWins, HelpSticky checked by TLC); all states replayed, help identified by the command path on its usage line and version by the configured tag; driver lines with inserted help/version items validated by TLC.",
          "TLA+ acceptor (CmdLine.tla: HelpWins/HelpSticky) model-checked with TLC; replay of all states; trace validation", "6 (C10)"),
@@ -26,7 +26,7 @@ CHECKS = {
          "TLA+ acceptor GroupLine.tla (choice denotation) model-checked with TLC; replay of all states; trace validation", "6 (C07)"),
  "C19": (MC, "GroupLine.tla models adjacent groups as blocks opened by the group's first item, filled by members, closed by anything else; AdjContiguous and CutKills are checked by TLC; all lines up to the bound (blocks at every position, split, cut, `--`/help inside) are replayed with exact values; driver lines validated by TLC.",
          "TLA+ acceptor GroupLine.tla (block automaton) model-checked with TLC; replay of all states; trace validation", "6 (C19)"),
- "C02": (MC, "RespellStutters (every other spelling of an attached occurrence - other name, `=`, glued, detached - gives the same outcome) is an invariant checked by TLC in every state; the alphabet contains all five spellings x hostile byte values x name kinds, clusters of 2..3; all states replayed and values compared byte-exactly (bytes travel percent-encoded through TLC).",
+ "C02": (MC, "RespellStutters (every other spelling of an attached occurrence - other name, `=`, glued, detached - gives the same outcome) is an invariant checked by TLC in every state; the alphabet contains all five spellings x hostile byte values x name kinds, clusters of 2..3; all states replayed and values compared byte-exactly (bytes travel percent-encoded through TLC); the tokeniser alone is compared with Lex.tla (contract over bytes, design-checked) on every byte string up to length 4 [5] over a 9-byte alphabet through the tokens hook.",
          "TLA+ invariant RespellStutters model-checked with TLC; replay of all states with byte-exact values; trace validation", "6 (C02)"),
  "C11": ("exploration", "Process.tla states what a process around OptionParser::run() may do (spawn with a prediction, one output on the predicted stream with the predicted text, body only on success, exit 0/1); TLC checks StreamsAndStatus on the protocol; a seeded sample of the specification's cases is executed as a real process (argv through execve, four argv[0] shapes) and every run's event sequence is validated by TLC (ProcessTrace), the prediction's class being bound to what CmdLine.tla demands.",
          "TLA+ process protocol (Process.tla) model-checked; trace validation of real process runs with TLC", "6 (C11)"),
